@@ -33,12 +33,13 @@ theorem advance_lookup_some {κ ν : Type} [DecidableEq κ] {T now : Nat} {td : 
 
 -- the spool ----------------------------------------------------------------------------------------
 
-/-- `blocks` (in order of receipt) are Block1 requests of block key `k`, the first with block
-number 0, each later one starting exactly where the concatenation of the earlier payloads ends and
-passing the size check; `body` is that concatenation -/
+/-- `blocks` (in order of receipt) are Block1 requests of block key `k`, each passing the size
+check, the first with block number 0, each later one starting exactly where the concatenation of
+the earlier payloads ends; `body` is that concatenation.  (Since block 0 passes the size check as
+well, the byte offsets are block numbers: `Assembly.num_eq_index`.) -/
 inductive Assembly (k : Key) : List Msg → Bytes → Prop
   | first {m : Msg} {b : Blk} : blockKey m = k → m.block1 = some b → b.num = 0 →
-      Assembly k [m] m.payload
+      sizeOk b m.payload.length = true → Assembly k [m] m.payload
   | next {ms : List Msg} {body : Bytes} {m : Msg} {b : Blk} : Assembly k ms body →
       blockKey m = k → m.block1 = some b → b.num ≠ 0 → sizeOk b m.payload.length = true →
       b.start = body.length → Assembly k (ms ++ [m]) (body ++ m.payload)
@@ -52,13 +53,25 @@ theorem Assembly.body_eq {k : Key} {ms : List Msg} {body : Bytes} (h : Assembly 
 theorem Assembly.keys {k : Key} {ms : List Msg} {body : Bytes} (h : Assembly k ms body) :
     ∀ m ∈ ms, blockKey m = k ∧ m.block1.isSome := by
   induction h with
-  | first hk hb _ => intro m hm; simp at hm; subst hm; exact ⟨hk, by simp [hb]⟩
+  | first hk hb _ _ => intro m hm; simp at hm; subst hm; exact ⟨hk, by simp [hb]⟩
   | next _ hk hb _ _ _ ih =>
     intro m hm
     simp only [List.mem_append, List.mem_singleton] at hm
     rcases hm with hm | hm
     · exact ih m hm
     · subst hm; exact ⟨hk, by simp [hb]⟩
+
+theorem Assembly.sizes {k : Key} {ms : List Msg} {body : Bytes} (h : Assembly k ms body) :
+    ∀ m ∈ ms, ∀ b, m.block1 = some b → sizeOk b m.payload.length = true := by
+  induction h with
+  | first _ hb _ hs =>
+    intro m hm b' hb'; simp at hm; subst hm; rw [hb] at hb'; cases hb'; exact hs
+  | next _ _ hb _ hs _ ih =>
+    intro m hm b' hb'
+    simp only [List.mem_append, List.mem_singleton] at hm
+    rcases hm with hm | hm
+    · exact ih m hm b' hb'
+    · subst hm; rw [hb] at hb'; cases hb'; exact hs
 
 theorem Assembly.ne_nil {k : Key} {ms : List Msg} {body : Bytes} (h : Assembly k ms body) :
     ms ≠ [] := by
@@ -67,7 +80,7 @@ theorem Assembly.ne_nil {k : Key} {ms : List Msg} {body : Bytes} (h : Assembly k
 theorem Assembly.head_zero {k : Key} {ms : List Msg} {body : Bytes} (h : Assembly k ms body) :
     ∃ m b, ms.head? = some m ∧ m.block1 = some b ∧ b.num = 0 := by
   induction h with
-  | first _ hb h0 => exact ⟨_, _, rfl, hb, h0⟩
+  | first _ hb h0 _ => exact ⟨_, _, rfl, hb, h0⟩
   | next hprev _ _ _ _ _ ih =>
     obtain ⟨m, b, hh, hb, h0⟩ := ih
     refine ⟨m, b, ?_, hb, h0⟩
@@ -87,6 +100,68 @@ theorem AllMore.snoc {ms : List Msg} {m : Msg} {b : Blk} (h : AllMore ms) (hb : 
   rcases hx with hx | hx
   · exact h x hx b' hb'
   · subst hx; rw [hb] at hb'; cases hb'; exact hm
+
+/-- all blocks of the list use size exponent `s` -/
+def UniformSzx (s : Nat) (ms : List Msg) : Prop := ∀ m ∈ ms, ∀ b, m.block1 = some b → b.szx = s
+
+theorem sizeOk_more_regular {b : Blk} {len : Nat} (hm : b.more = true) (hs : b.szx ≤ 6)
+    (h : sizeOk b len = true) : len = 2 ^ (b.szx + 4) := by
+  have h7 : b.szx ≠ 7 := by omega
+  simp only [sizeOk, hm, ↓reduceIte, Bool.or_eq_true, beq_iff_eq, Bool.and_eq_true, h7, false_and,
+    or_false] at h
+  rw [h, Blk.size, Nat.min_eq_left hs]
+
+/-- blocks of one regular size that all carry the more flag: the body is that many whole blocks -/
+theorem Assembly.length_uniform {k : Key} {ms : List Msg} {body : Bytes} (h : Assembly k ms body)
+    {s : Nat} (hs : s ≤ 6) (hu : UniformSzx s ms) (hm : AllMore ms) :
+    body.length = ms.length * 2 ^ (s + 4) := by
+  induction h with
+  | @first m b _ hb _ hsz =>
+    have hsx : b.szx = s := hu m (by simp) b hb
+    have := sizeOk_more_regular (hm m (by simp) b hb) (by omega) hsz
+    simp [this, hsx]
+  | @next ms body m b _ _ hb _ hsz _ ih =>
+    have hsx : b.szx = s := hu m (by simp) b hb
+    have hlen := sizeOk_more_regular (hm m (by simp) b hb) (by omega) hsz
+    have := ih (fun x hx => hu x (List.mem_append_left _ hx))
+      (fun x hx => hm x (List.mem_append_left _ hx))
+    simp only [List.length_append, List.length_cons, List.length_nil, this, hlen, hsx]
+    rw [Nat.add_mul]; simp
+
+/-- **offsets are block numbers**: in an assembly whose blocks all use one regular size exponent
+and of which only the last may lack the more flag, the block at position `i` has block number `i`
+— nothing skipped, nothing twice -/
+theorem Assembly.num_eq_index {k : Key} {ms : List Msg} {body : Bytes} (h : Assembly k ms body)
+    {s : Nat} (hs : s ≤ 6) (hu : UniformSzx s ms) (hm : AllMore ms.dropLast) :
+    ∀ (i : Nat) (x : Msg), ms[i]? = some x → ∃ b : Blk, x.block1 = some b ∧ b.num = i := by
+  induction h with
+  | @first m b _ hb h0 _ =>
+    intro i x hx
+    cases i with
+    | zero => simp at hx; subst hx; exact ⟨b, hb, h0⟩
+    | succ n => simp at hx
+  | @next ms body m b hprev _ hb _ _ hst ih =>
+    intro i x hx
+    have hm' : AllMore ms := by simpa using hm
+    have hu' : UniformSzx s ms := fun y hy => hu y (List.mem_append_left _ hy)
+    by_cases hi : i < ms.length
+    · rw [List.getElem?_append_left hi] at hx
+      exact ih hu' (fun y hy => hm' y (List.dropLast_subset _ hy)) i x hx
+    · have hlen := hprev.length_uniform hs hu' hm'
+      have hsx : b.szx = s := hu m (by simp) b hb
+      rw [List.getElem?_append_right (by omega)] at hx
+      have hi0 : i - ms.length = 0 := by
+        cases hd : i - ms.length with
+        | zero => rfl
+        | succ n => rw [hd] at hx; simp at hx
+      rw [hi0] at hx
+      simp only [List.getElem?_cons_zero, Option.some.injEq] at hx
+      subst hx
+      refine ⟨b, hb, ?_⟩
+      have hsz : b.size = 2 ^ (s + 4) := by rw [Blk.size, hsx, Nat.min_eq_left hs]
+      rw [Blk.start, hsz, hlen] at hst
+      have := Nat.eq_of_mul_eq_mul_right (Nat.two_pow_pos _) hst
+      omega
 
 /-- what is stored under block key `k` was built, in order, from requests of `hist`, none of
 which was a final block (a completed assembly does not stay in the spool) -/
@@ -140,8 +215,9 @@ theorem feed_lookup_ne {T now : Nat} {sp : TD Key Msg} {req : Msg} {k : Key} (hn
   cases hb : req.block1 with
   | none => rw [feed_none hb]
   | some b =>
-    rcases feed_cases T now sp req b hb with ⟨h0, e⟩ | ⟨h0, _, e⟩ | ⟨h0, self, er, hl, ha, e⟩ |
-        ⟨h0, self, self', hl, ha, e⟩
+    rcases feed_cases T now sp req b hb with ⟨h0, _, e⟩ | ⟨h0, hs0, e⟩ | ⟨h0, _, e⟩ |
+        ⟨h0, self, er, hl, ha, e⟩ | ⟨h0, self, self', hl, ha, e⟩
+    · rw [e]
     · rw [e]
       split
       · simp [TD.set, accessed_items, alookup_ainsert_ne hne]
@@ -171,8 +247,10 @@ theorem feed_keyInv_self {T now : Nat} {hist : List Msg} {sp : TD Key Msg} (req 
     rw [feed_none hb]
     exact ⟨h.weaken _, fun m hm => Or.inl ⟨rfl, by simpa using hm.symm⟩⟩
   | some b =>
-    rcases feed_cases T now sp req b hb with ⟨h0, e⟩ | ⟨h0, _, e⟩ | ⟨h0, self, er, hl, ha, e⟩ |
-        ⟨h0, self, self', hl, ha, e⟩
+    rcases feed_cases T now sp req b hb with ⟨h0, _, e⟩ | ⟨h0, hs0, e⟩ | ⟨h0, _, e⟩ |
+        ⟨h0, self, er, hl, ha, e⟩ | ⟨h0, self, self', hl, ha, e⟩
+    · rw [e]
+      exact ⟨h.weaken _, fun m hm => by simp at hm⟩
     · rw [e]
       by_cases hm : b.more = true
       · simp only [hm, ↓reduceIte]
@@ -180,13 +258,13 @@ theorem feed_keyInv_self {T now : Nat} {hist : List Msg} {sp : TD Key Msg} (req 
         intro asm hl
         simp only [TD.set, accessed_items, alookup_ainsert_self, Option.some.injEq] at hl
         subst hl
-        exact ⟨rfl, [req], Assembly.first rfl hb h0, allMore_nil.snoc hb hm,
+        exact ⟨rfl, [req], Assembly.first rfl hb h0 hs0, allMore_nil.snoc hb hm,
           List.sublist_append_right _ _⟩
       · simp only [hm, Bool.false_eq_true, ↓reduceIte]
         refine ⟨keyInv_absent (delIf_lookup_self _ _) _, fun m hm' => Or.inr ?_⟩
         simp only [Feed.pass.injEq] at hm'
         subst hm'
-        exact ⟨rfl, delIf_lookup_self _ _, [req], Assembly.first rfl hb h0,
+        exact ⟨rfl, delIf_lookup_self _ _, [req], Assembly.first rfl hb h0 hs0,
           List.sublist_append_right _ _, rfl, by simpa using allMore_nil⟩
     · rw [e]
       exact ⟨h.weaken _, fun m hm => by simp at hm⟩
